@@ -15,7 +15,8 @@
 EXTENDS ChunkMerge, TLC, Json, IOUtils, SequencesExt, FiniteSetsExt
 CONSTANTS Grid,      \* model timestamps
           NSeries,   \* number of input series (2..3)
-          MaxLen     \* at most this many samples per series
+          MaxLen,    \* at most this many samples per series
+          WithCounterInputs  \* also generate inputs shaped like real counter aggregates (known finding)
 
 VARIABLES series,  \* input: series[s] = sequence of chunks
           its,     \* chunk iterators by id (input series 1..NSeries, merged iterators after)
@@ -35,7 +36,23 @@ TimeSeqs == { SetToSortSeq(S, Lt) : S \in { S \in SUBSET Grid : S # {} /\ Cardin
 ChunkingsOf(ts) == { <<ts>> } \cup { <<SubSeq(ts, 1, c), SubSeq(ts, c + 1, Len(ts))>> : c \in 1..(Len(ts) - 1) }
 Chunkings == UNION { ChunkingsOf(ts) : ts \in TimeSeqs }
 MkSeries(chunking, tag) == [i \in DOMAIN chunking |-> [ts |-> chunking[i], agg |-> chunking[i], tag |-> tag]]
-Inputs == { [s \in 1..NSeries |-> MkSeries(f[s], s)] : f \in [1..NSeries -> Chunkings] }
+(* Real downsampler output: the COUNTER aggregate of a chunk starts with an extra sample at the  *)
+(* first raw timestamp (here: half a step before the chunk's first window; model time is doubled  *)
+(* for these inputs) - its timestamps are not those of the count aggregate.                      *)
+MkCounterSeries(chunking, tag) ==
+    [i \in DOMAIN chunking |-> [ts |-> [j \in DOMAIN chunking[i] |-> 2 * chunking[i][j]],
+                                agg |-> <<2 * chunking[i][1] - 1>> \o [j \in DOMAIN chunking[i] |-> 2 * chunking[i][j]],
+                                tag |-> tag]]
+CounterInputs == { [s \in 1..NSeries |-> MkCounterSeries(f[s], s)] : f \in [1..NSeries -> Chunkings] }
+(* KNOWN FINDING (KNOWN_FINDINGS.jsonl, C40 counter-own-timestamps): with such inputs the penalty *)
+(* merge of the counter aggregate can follow another replica than the merge of the count          *)
+(* aggregate, and a counter sample beyond the count chunk's maxt is never written.  The class is   *)
+(* excluded from the proof by the constraint NotKnownFindingCase; without it TLC reports           *)
+(* C40_EveryAggregateSampleKept violated (e.g. [0,2] || [1]).                                      *)
+KnownFindingCase == \E s \in DOMAIN series : \E i \in DOMAIN series[s] : series[s][i].agg # series[s][i].ts
+NotKnownFindingCase == ~KnownFindingCase
+Inputs == (IF WithCounterInputs THEN CounterInputs ELSE {}) \cup
+          { [s \in 1..NSeries |-> MkSeries(f[s], s)] : f \in [1..NSeries -> Chunkings] }
           \cup { [s \in 1..NSeries |-> MkSeries(f[IF s = 2 THEN 1 ELSE s], IF s = 2 THEN 1 ELSE s)] : f \in [1..NSeries -> Chunkings] }
 
 (* ---------------- dedupChunksIterator ---------------- *)
@@ -96,7 +113,7 @@ AggOf(o) == [i \in DOMAIN o |-> o[i].agg]
 C40_EveryAggregateSampleKept == Done => HasEveryCountTimestamp(TimesOf(CntOf(out)), TimesOf(AggOf(out)))
 (* stronger facts about the algorithm: chunk by chunk, and nothing invented, nothing reordered *)
 EachChunkComplete == \A i \in DOMAIN out : SeqSet(out[i].ts) \subseteq SeqSet(out[i].agg)
-InputTimes == UNION { TimesOf(CntOf(series[s])) : s \in DOMAIN series }
+InputTimes == UNION { TimesOf(CntOf(series[s])) \cup TimesOf(AggOf(series[s])) : s \in DOMAIN series }
 NothingInvented == TimesOf(CntOf(out)) \subseteq InputTimes /\ TimesOf(AggOf(out)) \subseteq InputTimes
 ChunksInOrder == \A i \in 1..(Len(out) - 1) : MinT(out[i]) <= MinT(out[i + 1])
 OnlyDoneIsFinal == ~Done => ENABLED Next
